@@ -6,6 +6,9 @@ TECH = "deterministic simulation with fault injection"
 NOTE_COMMON = ("Trusted base: the go/ast instrumenter (tools/instrument) and the sim packages (sim/simrt, simsync, simfs, simclock, simexec, simwire) reproduce the semantics of the constructs they replace; "
                "the oracle/reference model written in sim/engine; Go toolchain go1.26.8. Seeded search: a clean batch is evidence, not proof. ")
 CHECKS = {
+ "C01": dict(level="exploration", design="5.1",
+   text="Full-server simulation over the wire: seeded histories of 5..40 client operations (didOpen / didChange with 1..4 content changes of every shape the property names / didClose / re-open / didSave, feature requests) on 1..3 URIs, text profile with ASCII, BMP and non-BMP characters, LF and CRLF, empty documents, with the server's background tasks preempted anywhere and inbound bytes chunked arbitrarily. After EVERY notification the server's copy (read through a debug request handled on the dispatcher goroutine, after real JSON decoding) must equal an independently written UTF-16 reference client buffer; every response on a marker-carrying document is scanned for markers of superseded versions. Histories against a reference model, with the schedule owned by the simulator, are what this property quantifies over.",
+   note="One genuine defect is recorded as an open known finding (explicit empty range 0:0-0:0 taken for a full replacement); its explain predicate recomputes the server's text under exactly that misreading, any other mismatch is a violation. Without a workspace, markers of OTHER documents (read from disk by design) are not judged."),
  "C13": dict(level="exploration", design="5.13",
    text="Full-server simulation over the wire (real jsonrpc2 framing and read loop, real protocol dispatch, generated copy of the dispatcher, instrumented server): bursts of 2..5 changes to 1..2 documents carrying version markers; the simulator owns which publish goroutine runs and where it is preempted. For bursts of 2,3,4 changes EVERY permutation of publish order is enumerated under two policies (publish-point release, run-to-completion): 128 schedules; seeded fine-grained interleavings under 7 schedule policies cover bursts up to 5 with notifications arriving mid-analysis. Oracle: at quiescence the last publishDiagnostics per open URI carries the marker of the latest version only. Schedules are exactly what this property quantifies over.",
    note="Markers make the verdict independent of what other diagnostics say. Back-pressure on stdout is not simulated."),
